@@ -284,6 +284,20 @@ pub fn run(cfg: &Cfg) -> Stats {
                     }
                 }
             }
+            // a sequence that ends inside a ';'-spelled colour specification: nothing of it survives into the next
+            // sequence (in the same call, in the next call, after another kind of sequence)
+            for tail in ["38", "38;5", "48;2;7", "58;2;1;2", "38;2", "48;5", "58"] {
+                for pre in ["", "1;", "4:3;32;"] {
+                    for between in ["X", "", "\x1b]0;t\x07", "\x1b[2J"] {
+                        for follow in ["1", "31", "4;44", "0", "7;9", "2;3;4"] {
+                            let d = format!("a\x1b[{pre}{tail}m{between}\x1b[{follow}mY\x1b[0mz");
+                            eval(d.as_bytes(), &[], &mut st, true, "truncated-colour-at-end-of-sequence");
+                            let cut = d.find('m').unwrap() + 1;
+                            eval(d.as_bytes(), &[cut], &mut st, true, "truncated-colour-at-end-of-sequence");
+                        }
+                    }
+                }
+            }
             // every C0 control and DEL as text between two sequences and inside a sequence (only TAB, LF, FF, CR are text)
             for c in (0u8..0x20).chain(std::iter::once(0x7f)) {
                 if c == 0x1b || c == 0x18 || c == 0x1a {
